@@ -129,16 +129,27 @@ Proof.
   intros H; inversion H; subst. repeat split; auto.
 Qed.
 
+Lemma alg_eqb_true : forall a b, alg_eqb a b = true -> a = b /\ b <> AlgUnknown.
+Proof.
+  intros [|x|] [|y|]; cbn; intros H; try discriminate; split; try reflexivity; try discriminate.
+  apply N.eqb_eq in H. subst. reflexivity.
+Qed.
+
+Lemma get_details_ok_parse : forall c, get_details_ok c = true -> c_parse_ok c = true.
+Proof. intros c H. unfold get_details_ok in H. rewrite !andb_true_iff in H. tauto. Qed.
+
 Lemma cert_check_ok : forall f now c t pl, cert_check f now c t = Some pl -> cert_ok now c.
 Proof.
   intros f now c t pl H. apply cert_check_facts in H.
-  destruct H as (Hd & _ & _ & Hv & _ & _ & _ & He).
+  destruct H as (Hd & _ & _ & Hv & _ & _ & Ham & He).
   apply exts_check_facts in He. destruct He as [HF _].
   apply validity_check_true in Hv.
-  unfold get_details_ok in Hd. apply andb_true_iff in Hd. destruct Hd as [Hp _].
-  unfold cert_ok, parses, valid_now, no_unknown_critical. repeat split; try lia; auto.
-  - eapply Forall_impl; [|exact HF]. intros x Hx; apply Hx.
+  apply get_details_ok_parse in Hd.
+  unfold cert_ok, parses, valid_now, no_unknown_critical.
+  split; [split; [exact Hd|eapply Forall_impl; [|exact HF]; intros x Hx; apply Hx]|].
+  split; [lia|]. split.
   - intros x Hin Hb. rewrite Forall_forall in HF. apply (HF x Hin). exact Hb.
+  - apply alg_eqb_true. exact Ham.
 Qed.
 
 (* a successfully checked issuer (repaired x509_exts_check) is a CA with the returned pathLen *)
@@ -180,7 +191,8 @@ Qed.
 
 Lemma verify_by_ca_issued : forall c ca, verify_by_ca c ca = true -> issued_by c ca.
 Proof.
-  intros c ca. unfold verify_by_ca, issued_by. rewrite !andb_true_iff, N.eqb_eq. tauto.
+  intros c ca. unfold verify_by_ca, issued_by. rewrite !andb_true_iff, N.eqb_eq.
+  intros [[[_ Hi] Ha] Hs]. repeat split; try assumption. destruct (c_outer_alg c); [reflexivity|discriminate|discriminate].
 Qed.
 
 Lemma pathlen_ok : forall plc path_len depth, pathlen_fail plc path_len depth = false ->
@@ -444,7 +456,7 @@ Proof.
   destruct (certs_verify f now r depth store chain) eqn:E; [|reflexivity].
   apply certs_verify_basic in E. destruct E as (leaf & cas & root & Hch & _ & Hok & _).
   rewrite Forall_forall in Hok. assert (In c (chain ++ [root])) as Hin by (apply in_or_app; left; exact Hc).
-  destruct (Hok c Hin) as (_ & _ & Hnu). exfalso. apply (Hnu x Hx Hb Hcr).
+  destruct (Hok c Hin) as (_ & _ & Hnu & _). exfalso. apply (Hnu x Hx Hb Hcr).
 Qed.
 
 (* a certificate outside its validity window (ends inclusive), anywhere in the chain, rejects *)
@@ -508,7 +520,7 @@ Definition x_ku (b : N) := mk_ext true 1 (XKeyUsage (Some b)).
 Definition x_bc (ca pl : Z) := mk_ext true 1 (XBasic (Some (ca, pl))).
 Definition x_eku (l : list purpose) := mk_ext true (-1) (XExtKeyUsage (Some l)).
 Definition w_cert (subj iss k signer : N) (xs : list ext) : cert :=
-  mk_cert true 2 8%N true iss subj 1000 2000 k (sig_by signer) xs.
+  mk_cert true 2 8%N AlgSM2 AlgSM2 iss subj 1000 2000 k (sig_by signer) xs.
 
 (* #19: a trust-store certificate without basicConstraints ... *)
 Definition w19_root := w_cert 1 1 1 1 [x_ku 96].
@@ -579,3 +591,46 @@ Example tlcp_client_chain_legacy_vs_repaired :
   certs_verify_tlcp repaired 1500 RoleClient 5 [w20_root] [w20_sign_cli; w20_kenc_cli] = true /\
   certs_verify_tlcp repaired 1500 RoleClient 5 [w20_root] [w20_sign_srv; w20_kenc_srv] = false.
 Proof. repeat split; vm_compute; reflexivity. Qed.
+
+(* ------------------------------------------------------------------ signature algorithm identifiers (wave 2) *)
+
+(* no signature "verifies" under a declared algorithm other than sm2sign-with-sm3, whatever its bits *)
+Theorem non_sm2_algorithm_never_verifies : forall c ca,
+  c_outer_alg c <> AlgSM2 -> verify_by_ca c ca = false.
+Proof.
+  intros c ca H. unfold verify_by_ca. destruct (c_outer_alg c); [contradiction| |];
+    cbn [alg_is_sm2]; rewrite andb_false_r; reflexivity.
+Qed.
+
+Lemma linked_children_sm2 : forall l r, linked (l ++ [r]) -> Forall (fun c => c_outer_alg c = AlgSM2) l.
+Proof.
+  induction l as [|a l IH]; intros r H; [constructor|].
+  destruct l as [|b l'].
+  - cbn in H. destruct H as [(_ & Ha & _) _]. constructor; [exact Ha|constructor].
+  - change ((a :: b :: l') ++ [r]) with (a :: (b :: l') ++ [r]) in H. cbn [linked app] in H.
+    destruct H as [(_ & Ha & _) H2]. constructor; [exact Ha|]. apply (IH r). exact H2.
+Qed.
+
+(* every certificate of an accepted chain declares sm2sign-with-sm3 inside and outside; for every
+   setting of the repairs *)
+Theorem accepted_chain_is_sm2_signed : forall f now r depth store chain,
+  certs_verify f now r depth store chain = true ->
+  Forall (fun c => c_outer_alg c = AlgSM2 /\ c_inner_alg c = AlgSM2) chain.
+Proof.
+  intros f now r depth store chain H. apply certs_verify_basic in H.
+  destruct H as (leaf & cas & root & Hc & _ & Hok & Hl & _).
+  apply linked_children_sm2 in Hl. rewrite Forall_forall in *. intros c Hin.
+  specialize (Hl c Hin). split; [exact Hl|].
+  assert (In c (chain ++ [root])) as Hin' by (apply in_or_app; left; exact Hin).
+  destruct (Hok c Hin') as (_ & _ & _ & (He & _)). rewrite He. exact Hl.
+Qed.
+
+Theorem other_algorithm_rejected : forall f now r depth store chain c,
+  In c chain -> (c_outer_alg c <> AlgSM2 \/ c_inner_alg c <> AlgSM2) ->
+  certs_verify f now r depth store chain = false.
+Proof.
+  intros f now r depth store chain c Hin Hne.
+  destruct (certs_verify f now r depth store chain) eqn:E; [|reflexivity].
+  apply accepted_chain_is_sm2_signed in E. rewrite Forall_forall in E. destruct (E c Hin) as [H1 H2].
+  destruct Hne; contradiction.
+Qed.
